@@ -68,6 +68,18 @@ start line, header block, length or number is ever chosen by the checker; branch
   trip (lemma: every start-line token of a message in the quantifier is ASCII, so the filter returns an equal value);
   c false for some visible ASCII octet -> exact term that is not the token (violated where a token is demanded);
   otherwise (only controls / the space dropped, or c outside the lemmas) `opaque` -> undecided.
+  *parse_qs grouping* (3, lemma in `_qs_grouped`; documented urllib behaviour: parse_qs is the grouping of the parse_qsl
+  pairs of the same arguments): `parse_qs(A)` has every distinct name of `parse_qsl(A)` once, at the position of its first
+  pair, bound to the non-empty list of its values in pair order.  A map built over `parse_qs(A).items()` (or over the
+  names, with `Q[name]` as the list) that uses each list only as `L[-1]` is therefore the same map built over the pairs of
+  `parse_qsl(A)` (a dict comprehension over pairs also keeps the first position and the last value of a repeated key); `L[0]`
+  is accepted as well because a parameter *map* (the quantifier) has every name once, i.e. one-element lists.  Any other
+  use of the lists / the grouping -> `opaque` (R3 undecided).
+  *Fields passed with `**`* (3; `fld` in `run`): `K(.., **M)` where M evaluates to a display with constant string keys
+  (`{"a": x}` or `dict(a=x)`, never written to on the way - `_dict_build`) passes exactly `a=x` for its items (definition of
+  `**`); any other M -> the field cannot be located (undecided).  A construction is the term ("ctor", class, n) however its
+  arguments are passed.  Alias guard (2): a mapping that is read at a statement other than a return/raise (stored into
+  another local or a display) and written to on a path after that statement is `opaque`.
 * R1 (body / first_line): 3 - structural equality of the field's term with the demanded term
   `<arg>.partition(CRLFCRLF)[2]` resp. `ws-split(<arg>.partition(CRLFCRLF)[0].partition(CRLF)[0])`; 1 to locate the
   constructions.  Lemma: `x.rstrip()/.strip()/.lstrip()` before an argument-less `.split()` does not change the tokens
@@ -85,7 +97,7 @@ start line, header block, length or number is ever chosen by the checker; branch
   computes instead are judged by R1/R5 on the terms).
 * R3 (start-line fields, params, headers binding): 3 - structural comparison of field terms ("item i of one and the same
   token-sequence term", "path component / query component of one and the same request target", "map over `parse_qsl`
-  pairs"); 1.  The components are recognised as `.path` / `.query` (or the equivalent tuple elements 2 and 4 resp. 3) of
+  pairs", to which a map over the `parse_qs` grouping is reduced by the lemma above); 1.  The components are recognised as `.path` / `.query` (or the equivalent tuple elements 2 and 4 resp. 3) of
   `urlparse(..)` / `urlsplit(..)` (both result types have these attributes), urlparse's path re-joined with its params,
   or the two outer components of the target's partition at the first `?`.
   `.encode/.decode/str(x, enc)/bytes(x, enc)` steps are peeled structurally ("re-coded only"), never executed; an octet
@@ -459,9 +471,59 @@ def _mk_gen(it, elt):
     return ("gen", it, elt)
 
 
+def _is_parse_qs(t):
+    return len(t) == 4 and t[0] == "call" and t[1] == "parse_qs"
+
+
+def _qs_grouped(it, outs):
+    """A map / sequence built over the name -> [values] grouping of `parse_qs(A)` read as one over the pairs of
+    `parse_qsl(A)`: (iterable, element expressions) rewritten, or None if the grouping is not consumed in one of the forms
+    below.  Lemma (documented urllib behaviour; parse_qs is the grouping of the parse_qsl pairs of the same arguments):
+    `parse_qs(A)` has every distinct name of `parse_qsl(A)` once, at the position of its first pair, bound to the
+    non-empty list of its values in pair order.  Hence `{k($0): v(L[-1]) for $ = (name, L) in parse_qs(A).items()}` equals
+    `{k($0): v($1) for $ in parse_qsl(A)}` - a dict comprehension over pairs also keeps the position of the first and the
+    value of the last pair of a repeated key - provided k is injective on names, which the rules only accept for
+    re-coding steps.  `L[0]` is accepted as well: a parameter *map* (the quantifier) has every name once, so every list
+    has one element.  Iterating the grouping itself yields its names, and `Q[name]` is that name's list."""
+    base, conds = _unfilter_terms(it)
+    name = vals = None
+    if base[0] == "meth" and base[1] == "items" and not base[3] and not base[4] and _is_parse_qs(base[2]):
+        q, name, vals = base[2], _mk_item(ELEM, 0), _mk_item(ELEM, 1)
+    elif _is_parse_qs(base) or (base[0] == "meth" and base[1] == "keys" and not base[3] and not base[4] and _is_parse_qs(base[2])):
+        q = base if _is_parse_qs(base) else base[2]
+        name, vals = ELEM, ("index", q, ELEM)
+    if name is None:
+        return None
+    NAME, VALUE = ("qs-name",), ("qs-value",)
+
+    def step(n):
+        if n[0] == "item" and n[1] == vals and n[2] in (0, -1):
+            return VALUE
+        return NAME if n == name and name != ELEM else n
+
+    def conv(t):
+        t = _rewrite(t, step)
+        if name == ELEM:
+            t = _rewrite(t, lambda n: NAME if n == ELEM else n)
+        if any(s == ELEM or s == vals or _is_parse_qs(s) for s in _subterms(t)):
+            return None     # the list of values (or the pair) is used in another way
+        return _rewrite(t, lambda n: _mk_item(ELEM, 0) if n == NAME else _mk_item(ELEM, 1) if n == VALUE else n)
+
+    new = [conv(t) for t in list(outs) + conds]
+    if any(t is None for t in new):
+        return None
+    it2 = ("call", "parse_qsl", q[2], q[3])
+    for c in reversed(new[len(outs):]):
+        it2 = ("filter", it2, c)
+    return it2, new[:len(outs)]
+
+
 def _mk_map(it, key, val, init=()):
     if it[0] == "gen":
-        return ("map", it[1], _subst(key, it[2]), _subst(val, it[2]), init)
+        it, key, val = it[1], _subst(key, it[2]), _subst(val, it[2])
+    g = _qs_grouped(it, (key, val))
+    if g is not None:
+        it, (key, val) = g
     return ("map", it, key, val, init)
 
 
@@ -739,6 +801,11 @@ class _Sym:
 
     def _call(self, e, at, env, depth):
         if any(isinstance(a, ast.Starred) for a in e.args) or any(k.arg is None for k in e.keywords):
+            d = dotted(e.func)
+            if d is not None and d.split(".")[0] not in self.locals and d.split(".")[0] not in env and self.ctx.rs.resolve_call(self.f, e).kind == "class":
+                # a construction is the term ("ctor", class, n) whatever way its arguments are passed; the fields are
+                # located separately (`_splat_fields`)
+                return self._ctor(e, self.ctx.rs.resolve_call(self.f, e), d)
             return _opaque("call with * or ** arguments")
         args = tuple(self.ev(a, at, env, depth) for a in e.args)
         kwargs = tuple(sorted((k.arg, self.ev(k.value, at, env, depth)) for k in e.keywords))
@@ -757,15 +824,14 @@ class _Sym:
             return _opaque("call of a local callable")
         cal = self.ctx.rs.resolve_call(self.f, e)
         if cal.kind == "class":
-            if not any(n is e for n in self.ctor_nodes):
-                self.ctor_nodes.append(e)
-            return ("ctor", (cal.fq or d).split(".")[-1], [i for i, n in enumerate(self.ctor_nodes) if n is e][0])
+            return self._ctor(e, cal, d)
         if cal.kind in ("func", "struct"):
             return _opaque(f"call of package function {cal.fq}")
         name = (cal.fq if cal.kind == "external" and cal.fq and cal.fq != "?" else d).split(".")[-1]
+        if name == "dict" and not args:
+            # dict(a=x, b=y) is the display {"a": x, "b": y}
+            return ("dict", tuple((("const", k), v) for k, v in ((k.arg, self.ev(k.value, at, env, depth)) for k in e.keywords)))
         if name == "dict" and not kwargs:
-            if not args:
-                return ("dict", ())
             if len(args) == 1:
                 if args[0][0] in ("dict", "map"):
                     return args[0]
@@ -793,6 +859,11 @@ class _Sym:
             # filter(None, it) keeps the elements that are true; any other predicate is not modelled
             return _mk_filter(args[1], ELEM) if args[0] == ("const", None) else _opaque("filter() with a predicate function")
         return ("call", name, args, kwargs)
+
+    def _ctor(self, e, cal, d):
+        if not any(n is e for n in self.ctor_nodes):
+            self.ctor_nodes.append(e)
+        return ("ctor", (cal.fq or d).split(".")[-1], [i for i, n in enumerate(self.ctor_nodes) if n is e][0])
 
     # -------------------------------------------------------------------------------------------------------- names
     def _name(self, e, at, env, depth):
@@ -873,7 +944,7 @@ class _Sym:
             return ("param", name)
         if v is not None:
             dst = st if isinstance(st, ast.stmt) else self.fv.stmt_of(st)
-            if isinstance(v, ast.Dict) or (isinstance(v, ast.Call) and dotted(v.func) == "dict" and "dict" not in self.locals and not v.args and not v.keywords):
+            if isinstance(v, ast.Dict) or (isinstance(v, ast.Call) and dotted(v.func) == "dict" and "dict" not in self.locals and not v.args and all(k.arg is not None for k in v.keywords)):
                 return self._dict_build(name, dst, v, at, depth)
             return self.ev(v, dst, {}, depth)
         out = {}
@@ -903,6 +974,13 @@ class _Sym:
             elif isinstance(n, ast.Call) and isinstance(n.func, ast.Attribute) and isinstance(n.func.value, ast.Name) and n.func.value.id == name and n.func.attr in _DICT_MUTATORS:
                 sites.append(n)
         rel = []
+        if not isinstance(use, (ast.Return, ast.Raise)):
+            # the mapping is stored somewhere at `use` (an alias: another local, an item of a display that is splatted later)
+            # and execution goes on: a write after `use` would change what the alias holds -> not modelled
+            for n in sites:
+                s = self.fv.stmt_of(n)
+                if s is not None and s is not use and cfg.has(s) and cfg.reaches(cfg.node(use), cfg.node(s)) and not any(x is s for x in self.fv.ancestors(at)):
+                    return _opaque("mapping written to after the point where it is read")
         for n in sites:
             s = self.fv.stmt_of(n)
             if s is not None and cfg.has(s) and cfg.reaches(cfg.node(dst), cfg.node(s)) and (s is use or cfg.reaches(cfg.node(s), cfg.node(use))):
@@ -1317,7 +1395,8 @@ def run(ctx):
         "Static analysis of c2.parse_raw_http by symbolic evaluation (flow-sensitive reaching definitions, partition components - "
         "also when spelled as find() with a fall-back to the length plus slicing -, "
         "tuple packing, loops/comprehensions/dict() normalised to one mapping form): every constructed message gets the tail after "
-        "the first CRLFCRLF of the unmodified argument as body, the start line is the first CRLF-component of the head, its "
+        "the first CRLFCRLF of the unmodified argument as body (fields are located by keyword, position or as items of a "
+        "constant-key display splatted with **), the start line is the first CRLF-component of the head, its "
         "whitespace tokens are only unpacked under a dominating length-3 fact and are bound to the like-named fields (the request "
         "target re-coded or passed through an octet filter that keeps every ASCII octet - interval domain - only), "
         "response/request construction is selected by the case-insensitive HTTP/ prefix, the header map is built from the "
@@ -1326,10 +1405,11 @@ def run(ctx):
         "(urlsplit, not urlparse which cuts `;parameters` off), and the exception-escape set of the function is a subset of ValueError."
     )
     rep.not_decided = ["percent-decoding details (parse_qsl semantics)", "duplicate headers",
+                       "repeated query parameter names (a parameter map has each name once): with parse_qs, taking the first or the last value of a name's list are both accepted",
                        "header lines that are not of the `key: value` form (outside the quantifier; R5 lets a filter drop them)",
                        "request targets with a fragment `#` or a leading `//` (not legal in a request path, outside the quantifier): how urlsplit/urlparse or a cut at `?` treat them is not judged",
                        "under the urlparse re-join spelling, a last path segment ending in a bare `;` (empty `.params`): the re-join is accepted as the complete path"]
-    rep.trusted_base = ["CPython ast", "bytes.partition/split/splitlines/find/slicing semantics (incl. b''.split(sep) == [b''], at most maxsplit + 1 pieces)", "iteration over bytes yields its octets and bytes(<ints>) rebuilds them", "urllib.parse (urlsplit keeps `;params` in .path, urlparse moves them to .params; parse_qsl)"]
+    rep.trusted_base = ["CPython ast", "bytes.partition/split/splitlines/find/slicing semantics (incl. b''.split(sep) == [b''], at most maxsplit + 1 pieces)", "iteration over bytes yields its octets and bytes(<ints>) rebuilds them", "urllib.parse (urlsplit keeps `;params` in .path, urlparse moves them to .params; parse_qsl; parse_qs == the parse_qsl pairs grouped by name in first-occurrence order, values in pair order)"]
     f = ctx.repo.func("c2.parse_raw_http")
     cfg = ctx.cfg(f)
     fv = FuncView.of(f.node)
@@ -1363,8 +1443,27 @@ def run(ctx):
         ctx.ob("R1", "AGREE", f, "constructors", True, f"HttpResponse and HttpRequest constructions found: {counts}")
 
     def fld(c, kind, name):
+        """Term of the argument bound to field `name` of construction `c` (keyword, positional, or an item of a mapping
+        display splatted with `**`); None if it cannot be located."""
         e = _field(ctx, c, kind, name)
-        return None if e is None else S.ev(e, fv.stmt_of(c))
+        if e is not None:
+            return S.ev(e, fv.stmt_of(c))
+        if any(isinstance(a, ast.Starred) for a in c.args):
+            return None
+        # `**M`: M must evaluate to a display whose keys are all constant strings (`{"headers": h, ..}` / `dict(headers=h, ..)`,
+        # never written to before the call): then `K(.., **M)` passes exactly `key=value` for its items (definition of `**`)
+        for k in c.keywords:
+            if k.arg is None:
+                m = S.ev(k.value, fv.stmt_of(c))
+                if m[0] != "dict" or not all(kt[0] == "const" and isinstance(kt[1], str) for kt, _v in m[1]):
+                    return None
+                hit = [v for kt, v in m[1] if kt[1] == name]
+                if hit:
+                    return hit[-1]      # a repeated key of a display: the last item wins
+        order = _fields_of(ctx, f"c2.{kind}")
+        if name in order and order.index(name) < len(c.args):
+            return S.ev(c.args[order.index(name)], fv.stmt_of(c))
+        return None
 
     # ---- R1 body
     for kind, cs in ctors.items():
@@ -1454,7 +1553,10 @@ def run(ctx):
             return k == _mk_item(ELEM, 0) and v == _mk_item(ELEM, 1)
 
         # pairs of parse_qsl dropped by a condition: whether the condition can fail for a pair is parse_qsl semantics -> not modelled
-        p_t = _mk_phi([_opaque("parse_qsl pairs filtered by a condition") if a[0] == "map" and a[1][0] == "filter" and _unfilter(a[1])[0][:2] == ("call", "parse_qsl") else a
+        # the name -> [values] grouping of parse_qs consumed in another way than the forms of `_qs_grouped`: which value of a
+        # list is taken is not modelled either
+        p_t = _mk_phi([_opaque("parse_qsl pairs filtered by a condition") if a[0] == "map" and a[1][0] == "filter" and _unfilter(a[1])[0][:2] == ("call", "parse_qsl") else
+                       _opaque("parse_qs grouping consumed in a way the parse_qs/parse_qsl lemma does not cover") if any(_is_parse_qs(s) for s in _subterms(a)) else a
                        for a in _alts(p_t)])
         vm, vu, vp = _judge(m_t, p_method), _judge(u_t, p_uri), _judge(p_t, p_params)
         same = len({repr(x) for x in seen}) <= 1 and len({repr(x) for x in parses}) <= 1
